@@ -13,6 +13,10 @@ Proof. split; [vm_compute; reflexivity|]. intros t. destruct t; vm_compute; refl
    verification hooks are ignored) *)
 Theorem C01_source_skeleton : skeletons = expected_skeletons.
 Proof. vm_compute. reflexivity. Qed.
+(* and every function of lib.rs / traits.rs (the public API and the trait impls: thin wrappers over the modelled core)
+   still calls the same names in the same order: the delegation structure the operations of Exec.v were read from *)
+Theorem C01_source_wrappers : wrappers = expected_wrappers.
+Proof. vm_compute. reflexivity. Qed.
 
 (* one step: well-formedness is preserved, nothing undefined is reached, statics are untouched, other slots are
    untouched, and unless the step reports an allocation failure the texts and the returned value are Spec's *)
@@ -61,6 +65,7 @@ Qed.
 
 Print Assumptions C01_gen_ok.
 Print Assumptions C01_source_skeleton.
+Print Assumptions C01_source_wrappers.
 Print Assumptions C01_step.
 Print Assumptions C01_histories.
 Print Assumptions C01_read.
